@@ -131,6 +131,22 @@ def run_case(kind, p):
     back = grm.get_indices(coords, zero, a, b)
     if np.abs(back - flat).max(initial=0) > 1e-6:
         msgs.append(f"get_indices(calc_coords(idx)) differs from idx by {np.abs(back - flat).max()}")
+    # read-only inputs (the caller's arrays are input, not scratch space) and a column-major index list: same answers, and what was
+    # handed in is unchanged
+    def ro(x):
+        x = np.array(x)
+        x.setflags(write=False)
+        return x
+    try:
+        c_ro = utils.calc_coords(ro(zero), ro(a), ro(b), ro(flat))
+        b_ro = grm.get_indices(ro(coords), ro(zero), ro(a), ro(b))
+        c_f = utils.calc_coords(zero, a, b, np.asfortranarray(flat))
+        if not np.array_equal(c_ro, coords) or not np.array_equal(b_ro, back) or not np.array_equal(c_f, coords):
+            msgs.append("read-only / column-major inputs give other coordinates or indices than ordinary arrays")
+    except Exception as e:      # noqa: BLE001
+        msgs.append(f"read-only / column-major inputs: raised {type(e).__name__}: {e}")
+    if not np.array_equal(flat, np.concatenate(np.asarray(p["idx"], dtype=np.float64).T) if idx.ndim == 3 else np.asarray(p["idx"], dtype=np.float64)):
+        msgs.append("calc_coords / get_indices modified the caller's index array")
     # the same with lattice vectors kept as integers (tuples / integer arrays) when they are integral: fractional indices stay
     # fractional
     if np.all(a == np.round(a)) and np.all(b == np.round(b)) and np.all(zero == np.round(zero)):
